@@ -1,15 +1,25 @@
 """Per-property configuration for check.py: level, rule text, evaluation keys, observation minimum,
-offline checker, assumptions."""
+offline checker, assumptions; and the texts that go into MANIFEST.json."""
+import json
+import os
+
 from oracle import checkers as ck
 
 COMMON_ASSUME = [
-    "the dependency curve crates (curve25519-dalek, ed448-goldilocks, p256, k256) are used as calculators by the in-harness oracles; the sampled Python re-judgement does not share them",
-    "workloads are seeded (VERIF_SEED); held = no refutation event on the executions listed, not a proof",
+    "the dependency curve crates (curve25519-dalek, ed448-goldilocks, p256, k256) serve as calculators for the in-harness oracles; the Python reference (oracle/, pinned to the RFC 9591 Appendix E vectors, RFC 8032 and BIP-340 vectors) shares no code with them",
+    "workloads are seeded by VERIF_SEED; 'held' means no refutation event on the executions listed, not a proof",
+    "events of negligible probability (random collisions, a hash output of zero, a 2^-128 batch false accept) are not modelled",
 ]
+TR_ONLY = ["secp256k1-tr"]
 
 
 def extra_builds(build):
-    return True
+    """setup: also build the C20 probe in the three profiles it compares"""
+    import os
+    if not os.path.exists(os.path.join(os.path.dirname(os.path.abspath(__file__)), "harness", "src", "bin", "zprobe.rs")):
+        return True
+    ok, _ = build(profiles=("dev", "release", "verif"), bins=("zprobe",))
+    return ok
 
 
 def _min_counts(**need):
@@ -23,24 +33,223 @@ def _min_counts(**need):
     return f
 
 
+def _all(*fs):
+    def f(m, tier):
+        for g in fs:
+            r = g(m, tier)
+            if r:
+                return r
+        return None
+    return f
+
+
+def _py(*fns):
+    def run(files, tier, seed, out):
+        return ck.merge_results(*[fn(files) for fn in fns])
+    return run
+
+
+def _c12_pregen(outdir, tier, seed):
+    from oracle import decode_ref
+    for s in ["ed25519", "ristretto255", "ed448", "p256", "secp256k1", "secp256k1-tr"]:
+        with open(os.path.join(outdir, f"adversarial.{s}.json"), "w") as f:
+            json.dump(decode_ref.gen_adversarial(s, seed), f)
+
+
+def _c18_min(m, tier):
+    if m["counts"].get("cells_unfilled", 0) > 0:
+        return f"{m['counts']['cells_unfilled']} parity cells not observed often enough"
+    return None
+
+
+def _c14_min(m, tier):
+    if m["counts"].get("control_panic_caught", 0) < 6:
+        return "panic control did not fire in every suite"
+    return None
+
+
+def _c19_min(m, tier):
+    if m["counts"].get("control_constant_rng_accepts_pair", 0) < 1:
+        return "constant-RNG control never accepted a complementary pair (workload would not expose reused blinders)"
+    return None
+
+
 PROPS = {
     "C01": {
-        "level": "exploration",
-        "eval_keys": ["sessions_judged"],
-        "rule": "one evaluation = one honest signing session (keygen source x shape x identifier kind x signer subset x message) "
-                "taken to aggregate and judged by library verify, the independent in-harness verifier, ed25519-dalek "
-                "verify_strict / libsecp256k1 where they exist, and (sampled) the Python reference; distinct = distinct "
-                "(n,t,identifier kind,key source,|S| class,message class) tuples that reached every verifier",
-        "python": lambda files, tier, seed, out: ck.check_sigs(files, "C01"),
+        "level": "exploration", "eval_keys": ["sessions_judged"],
+        "rule": "one evaluation = one honest signing session (keygen source x shape x identifier kind x signer subset x message) taken to aggregate and judged by library verify, the independent in-harness verifier, ed25519-dalek verify_strict / libsecp256k1 where they exist, and (sampled) the Python reference; distinct = distinct (n,t,identifier kind,key source,|S| class,message class) tuples that reached every verifier",
+        "python": lambda f, t, s, o: ck.check_sigs(f, "C01"),
         "minimum": _min_counts(sessions_judged=(2500, 20000), python_sigs_judged=(600, 1500), signer_set_non_prefix=(500, 5000)),
         "assumptions": COMMON_ASSUME + ["secret keys, polynomials and nonces are sampled, not enumerated"],
+    },
+    "C03": {
+        "level": "exploration", "eval_keys": ["sub_threshold_sets"],
+        "rule": "one evaluation = one holder set of size 1..t-1 driven through sign / aggregate (3 modes) / reconstruct with honest, lowered and absent thresholds, plain and re-randomized, plus the assembled (R, sum z) judged by the independent verifier; distinct = (n,t,k,key source,identifier kind)",
+        "minimum": _min_counts(sub_threshold_sets=(1500, 10000), degree_upper_checks=(300, 1500), assembled_candidates_judged=(1500, 10000)),
+        "assumptions": COMMON_ASSUME + ["decides the mechanical threshold enforcement the property names, not cryptographic unforgeability"],
+    },
+    "C04": {
+        "level": "fault_enumeration", "eval_keys": ["alterations"],
+        "rule": "one evaluation = one set of submitted shares (every non-empty cheater subset of a signer set x alteration kind, plus cancelling pairs/triples at every position) judged in 3 detection modes and by standalone share verification; distinct = (|S|, |X|, kind, plain/re-randomized, Taproot R parity)",
+        "exhaustive": False,
+        "minimum": _min_counts(alterations=(9000, 60000), share_verifications=(30000, 200000)),
+        "assumptions": COMMON_ASSUME + ["cheater subsets are exhaustive per signer set; signer sets and shapes are sampled"],
+    },
+    "C05": {
+        "level": "fault_enumeration", "eval_keys": ["aggregate_verdicts", "substitution_share_verdicts", "claimed_identifier_verdicts"],
+        "rule": "one evaluation = one verdict of aggregate / verify_signature_share on a package-and-shares filling taken from two concurrent sessions (exhaustive 2^k commitment fillings x 2^k share fillings) or on a single-field substitution of the package; distinct = (|S|, session-B kind, #B commitment slots, #B share slots) and substitution classes",
+        "minimum": _min_counts(aggregate_verdicts=(3000, 20000), substitution_share_verdicts=(1500, 8000)),
+        "assumptions": COMMON_ASSUME + ["that every field is *hashed* into the binding factor is decided by C02, not here"],
+    },
+    "C06": {
+        "level": "exploration", "eval_keys": ["shares_checked", "tamperings", "reconstructions", "parameter_pairs"],
+        "rule": "evaluations = dealer shares checked against the polynomial identity + single-coordinate tamperings + t-subset reconstructions + parameter pairs; distinct = (n,t,identifier kind,key kind) and tampering classes per threshold",
+        "python": lambda f, t, s, o: ck.check_vss(f, "C06"),
+        "minimum": _min_counts(shares_checked=(1500, 10000), tamperings=(20000, 100000), parameter_pairs=(300, 300)),
+        "assumptions": COMMON_ASSUME + ["the coefficient sampler is not modelled (C16 covers it)"],
+    },
+    "C07": {
+        "level": "exploration", "eval_keys": ["participants_checked", "sessions_judged"],
+        "rule": "one evaluation = one participant's DKG output checked against the participants' logged polynomials (share == sum_j f_j(i), key == sum C_j0 with the Taproot tweak where applicable, entries of the public package) or one post-DKG signing session; distinct = (n,t,identifier kind[,Taproot key parity])",
+        "python": _py(lambda f: ck.check_dkg(f, "C07"), lambda f: ck.check_sigs(f, "C07")),
+        "minimum": _min_counts(dkg_runs=(200, 1200), participants_checked=(700, 6000)),
+        "assumptions": COMMON_ASSUME,
+    },
+    "C08": {
+        "level": "fault_enumeration", "eval_keys": ["faults_injected"],
+        "rule": "one evaluation = one faulty peer contribution (fault kind x field instance) injected for one (receiver, sender) pair, judged against the fault table (first consuming step, culprit); distinct = (fault class, n, t)",
+        "minimum": _min_counts(faults_injected=(5000, 60000)),
+        "assumptions": COMMON_ASSUME + ["error variants are recorded, only step and culprit are asserted"],
+    },
+    "C09": {
+        "level": "exploration", "eval_keys": ["part3_calls", "part2_calls", "common_set_vectors"],
+        "rule": "exhaustive small scope: every assignment of {run A, run B, absent} to each round-one slot and of {(run, addressee)} or absent to each round-two slot of every receiver (n=3 quick; n in {3,4} thorough; all t), each part2/part3 outcome compared with the executable acceptance model; plus all 2^n common-set vectors with a signing run; distinct = distinct round-one fillings per (n,t,receiver) and accepted histories",
+        "exhaustive": True,
+        "minimum": _min_counts(part3_calls=(10000, 600000), common_set_vectors=(150, 500), accepted_histories=(200, 800)),
+        "assumptions": COMMON_ASSUME + ["scope bound: n <= 4, two concurrent runs with equal (n,t)"],
+    },
+    "C10": {
+        "level": "exploration", "eval_keys": ["refreshed_packages_checked", "mixed_attempts"],
+        "rule": "evaluations = refreshed key packages checked (group key, identifier/threshold, verifying share == G*new share == public entry) + signing attempts with mixed generations / removed participants under old and new public packages in 3 modes; distinct = (n,t,key source,procedure,|R|,chain length) and rejection classes",
+        "minimum": _min_counts(refreshes=(400, 3000), mixed_attempts=(3000, 20000)),
+        "assumptions": COMMON_ASSUME,
+    },
+    "C11": {
+        "level": "exploration", "eval_keys": ["repairs", "helper_part1_calls"],
+        "rule": "one evaluation = one complete repair (helper set x repaired identifier, existing or new) with per-helper delta sums checked against independently computed Lagrange coefficients; distinct = (n,t,key source,target kind,|H|) and refusal classes",
+        "minimum": _min_counts(repairs=(2000, 15000)),
+        "assumptions": COMMON_ASSUME,
+    },
+    "C12": {
+        "level": "exploration", "eval_keys": ["decodes", "container_decodes", "binary_roundtrips", "json_roundtrips", "reference_verdicts_compared"],
+        "rule": "evaluations = primitive decodes (every single-bit flip, every single-byte substitution, length variants, boundary integers, random strings: accepted => re-encoding equals input) + container decodes (header sweep, every truncation, embedded invalid primitives, cross-suite) + round trips (binary and JSON) + verdicts compared with the Python strict decoders; distinct = (type x check class) and adversarial classes",
+        "python": lambda f, t, s, o: ck.check_dec(f, "C12"),
+        "pregen": _c12_pregen,
+        "minimum": _min_counts(decodes=(500000, 5000000), reference_verdicts_compared=(15000, 15000), binary_roundtrips=(1500, 3000)),
+        "assumptions": COMMON_ASSUME + ["Taproot signatures are compared modulo the parity of R (the 64-byte encoding is x-only)", "trailing bytes after postcard containers and upper-case hex in JSON are recorded, not judged (the canonicity clause is about fixed-size encodings)", "a public key package whose trailing threshold is absent is the documented pre-3.0 form"],
+    },
+    "C13": {
+        "level": "fault_enumeration", "eval_keys": ["resumed_runs"],
+        "rule": "one evaluation = one participant's protocol run re-executed with its state encoded, dropped and decoded at one subset of its round boundaries (every subset in binary, every subset in JSON, random mixes), all later outputs compared byte-for-byte with the uninterrupted run; distinct = (protocol, n, t, persistence pattern)",
+        "minimum": _min_counts(resumed_runs=(8000, 60000)),
+        "assumptions": COMMON_ASSUME + ["a restart is modelled as encode / drop / decode inside one process"],
+    },
+    "C14": {
+        "level": "exploration", "eval_keys": ["binary_decodes", "json_decodes", "protocol_calls", "consume_calls"],
+        "rule": "evaluations = decoder calls on structure-aware mutated encodings (binary and JSON, all 24 types) + protocol entry-point calls on hostile wire-representable peer material + mutate-decode-consume calls, each under catch_unwind with overflow checks and debug assertions on and a write-ahead record for dead-process attribution; distinct = (decoder) and (entry point x hostile-material class)",
+        "dead_is_violation": True,
+        "minimum": _all(_min_counts(binary_decodes=(300000, 10000000), protocol_calls=(15000, 100000)), _c14_min),
+        "assumptions": COMMON_ASSUME + ["hostile values are laundered through their own wire encoding: only what a peer can deliver is used", "the caller's own secret state is honestly generated"],
+    },
+    "C15": {
+        "level": "exploration", "eval_keys": ["nonce_pairs_checked"],
+        "rule": "one evaluation = one nonce pair produced by commit / preprocess / SigningNonces::new under a recording source (ChaCha20, constant, periodic, counter), compared with H3(stream[64j..+32]||share), H3(stream[64j+32..+64]||share), G*nonce, and the injectivity map over all observed (bytes, share) pairs; distinct = (entry point, share kind, source, call pattern)",
+        "python": lambda f, t, s, o: ck.check_nonce(f, "C15"),
+        "minimum": _min_counts(nonce_pairs_checked=(15000, 200000), python_nonce_pairs=(150, 1000)),
+        "assumptions": COMMON_ASSUME + ["the in-harness expectation uses the suite's H3; the Python sample re-derives H3 from the RFC"],
+    },
+    "C16": {
+        "level": "exploration", "eval_keys": ["perturbed_runs", "reproducibility_checks", "cross_stream_comparisons"],
+        "rule": "evaluations = perturbed re-executions (one per draw of the source) + reproducibility checks (same stream, scripted replay, counter and periodic sources) + cross-stream comparisons of every random-derived observable; distinct = (entry point, n, t)",
+        "minimum": _min_counts(taint_maps=(200, 1500), perturbed_runs=(1500, 12000)),
+        "assumptions": COMMON_ASSUME + ["a dead or shared draw counts only if it shows under three different base streams (rejection sampling may legitimately discard a draw)", "batch blinders are internal: decided behaviourally by C19, cross-checked here by the number of draws"],
+    },
+    "C17": {
+        "level": "exploration", "eval_keys": ["sessions_judged", "binding_variants", "tamper_verdicts"],
+        "rule": "evaluations = re-randomized sessions (seed kinds x explicit randomizers x shapes) + randomizer-binding variants (every seed bit, every commitment, signer set changes) + per-participant tampering verdicts; distinct = (n,t,identifier kind,randomizer source,|S|) and tamper classes",
+        "python": _py(lambda f: ck.check_randomizer(f, "C17"), lambda f: ck.check_sigs(f, "C17", "randomized-signature-rejected")),
+        "minimum": _min_counts(sessions_judged=(450, 3000), binding_variants=(4000, 30000), tamper_verdicts=(2500, 15000)),
+        "assumptions": COMMON_ASSUME,
+    },
+    "C18": {
+        "level": "exploration", "eval_keys": ["sessions_judged"], "suites": TR_ONLY, "weights": {"secp256k1-tr": 12},
+        "rule": "one evaluation = one Taproot signing session (dealer or DKG keys; root absent/empty/32/5/100 bytes or untweaked) judged by the in-harness BIP-340 check, libsecp256k1 and the Python BIP-340/341 code; seeds are drawn until each of the 8 (internal key, output key, group commitment) parity cells per (key source, root) was seen >= 2x (quick) / 16x (thorough); distinct = filled parity cells",
+        "python": lambda f, t, s, o: ck.check_taproot(f, "C18"),
+        "minimum": _all(_c18_min, _min_counts(sessions_judged=(300, 2000), python_taproot_sessions=(200, 400))),
+        "evidence_extra": lambda m, py: {"parity_table": {k[5:]: v for k, v in m["counts"].items() if k.startswith("cell/")}},
+        "assumptions": COMMON_ASSUME,
+    },
+    "C19": {
+        "level": "fault_enumeration", "eval_keys": ["batch_verifications"],
+        "rule": "one evaluation = one Verifier::verify call (batch sizes 0..16 quick / 0..64 thorough; one invalid item at every position x 7 kinds; complementary pairs and triples; duplicates), each batch under 3 verifier random streams, compared with the conjunction of individual verdicts (library, independent verifier, Item::verify_single); distinct = (size, kind)",
+        "minimum": _all(_min_counts(batch_verifications=(15000, 200000), complementary_batches=(2000, 20000)), _c19_min),
+        "assumptions": COMMON_ASSUME + ["the 2^-128 soundness bound itself is not measurable"],
     },
 }
 
 MANIFEST_TEXT = {
-    "C01": {
-        "technique": "runtime monitoring: honest signing sessions under seeded shape/identifier/subset/message workloads, judged online by four verifiers and offline by a Python RFC 8032 / BIP-340 / RFC 9591 reference",
-        "text": "Exploration: thousands of honest sessions per ciphersuite over every (n,t) up to 6 (quick) / 12 (thorough) plus large shapes, five identifier kinds, dealer/DKG/edge keys, prefix and non-prefix signer sets of every size t..n, 15 message classes. Every session must aggregate in all three detection modes, every share must verify, and the decoded signature must be accepted by the library, by an independent in-harness verifier (own challenge hash), by ed25519-dalek verify_strict / libsecp256k1 and, for a sample, by a from-scratch Python verifier.",
-        "note": "Sampled, not exhaustive, over keys/nonces; curve crates are a calculator for the in-harness verifier; the Python sample does not depend on them.",
-    },
+    "C01": {"technique": "runtime monitoring: honest sessions under seeded shape/identifier/subset/message workloads, judged online by library + independent + external verifiers and offline by a Python RFC 8032 / BIP-340 / RFC 9591 reference",
+            "text": "Exploration: thousands of honest sessions per ciphersuite over every (n,t) up to 6 (quick) / 12 (thorough) plus large shapes, five identifier kinds, dealer/DKG/edge keys, prefix and non-prefix signer sets of every size, 15 message classes. Every session must aggregate in all detection modes, every share must verify, and the decoded signature must be accepted by four independent verifiers.",
+            "note": "Sampled over keys/nonces; curve crates are a calculator for the in-harness verifier; the Python sample does not depend on them."},
+    "C03": {"technique": "runtime monitoring: every sub-threshold holder set driven through sign/aggregate/reconstruct with honest and lying thresholds; independent verifier judges whatever can be assembled",
+            "text": "Exploration with exhaustive subsets per shape: every holder set of size 1..t-1 (sampled above a cap) must be refused by signer and coordinator, must never obtain a signature in any detection mode even when all thresholds are lowered or absent (also through frost-rerandomized), must not reconstruct the key; polynomial degree is probed from both sides.",
+            "note": "Mechanical threshold enforcement only; unforgeability against arbitrary adversaries is not runtime-observable."},
+    "C04": {"technique": "runtime monitoring with fault injection: every non-empty cheater subset x alteration kind x detection mode, oracle knows the altered slots",
+            "text": "Fault enumeration: per signer set every non-empty subset of cheaters x {+1, negated, zero, another signer's share, concurrent-session share, random} and cancelling pairs/triples; culprit lists compared with integer-ordered expectations; whatever is released is verified independently; also through frost-rerandomized; Taproot parity branches recorded.",
+            "note": "Exhaustive over cheater subsets of the sampled signer sets."},
+    "C05": {"technique": "runtime monitoring over two-session histories: exhaustive slot fillings and single-field substitutions against an executable session model",
+            "text": "Fault enumeration over histories: two concurrent sessions of the same signers; every way of filling commitment and share slots from A/B (4^k), every single-field substitution of the package (message, each commitment component, signer set, group key, claimed identifier), own-entry and identity-commitment cases.",
+            "note": "Model: a share is valid only under exactly its own package."},
+    "C06": {"technique": "runtime monitoring: dealer outputs checked against the polynomial identity recomputed outside the library, every single-coordinate tampering, parameter grid; Python re-checks a sample",
+            "text": "Exploration + fault enumeration: all (n,t) up to 7/14, five identifier kinds, keys {random,1,order-1}; every share checked for G*s_i == sum id^k C_k, thresholds, group key, reconstruction by t and not by t-1 shares; every tampering position must be rejected; u16 boundary parameter grid.",
+            "note": "Sampler not modelled here."},
+    "C07": {"technique": "runtime monitoring: DKG outputs of every participant compared with the participants' own logged polynomials; Python BIP-341 / RFC re-check",
+            "text": "Exploration: all (n,t) up to 5/9 x five identifier kinds; equal public packages, share == sum_j f_j(i), group key == sum of constant terms (Taproot: key-path tweak), every t-subset (capped) signs.",
+            "note": "Coefficients read through the crate's `internals` feature."},
+    "C08": {"technique": "runtime monitoring with fault injection: one faulty contribution per run, fault table oracle (first consuming step, culprit)",
+            "text": "Fault enumeration: every (receiver, sender) pair x ~30 fault kinds x every field instance, n up to 4/6, three identifier kinds. The error must surface at the first consuming step and name exactly the slot of the faulty contribution when attributable.",
+            "note": "Error variants recorded, not asserted."},
+    "C09": {"technique": "runtime monitoring of a scripted network: exhaustive delivery histories of two concurrent DKG runs against an executable acceptance model",
+            "text": "Exhaustive small scope (n=3 quick; n in {3,4} thorough, all t, every receiver): all round-one and round-two slot fillings; accepted histories must be internally consistent with the filed commitments; all 2^n common-set vectors complete, agree and sign.",
+            "note": "Scope bound n<=4, two runs."},
+    "C10": {"technique": "runtime monitoring: both refresh procedures over every remaining set, chains of refreshes, every old/new mix, rejection cases",
+            "text": "Exploration + fault enumeration: every remaining set R (|R|>=t) for n up to 5/8, dealer and distributed refresh, chains of 1-3, dealer and DKG starting keys; positive clauses on every refreshed package; every proper old/new mix and removed participants must fail under old and new public packages in 3 modes; threshold change / unknown participant / non-zero constant term rejected.",
+            "note": "Found and led to the repair of the stale verifying share (known_findings.json)."},
+    "C11": {"technique": "runtime monitoring: complete repairs over helper sets and target identifiers, delta sums against independent Lagrange coefficients",
+            "text": "Exploration: all helper sets t<=|H|<=n-1 (sampled above a cap) x existing and new identifiers (small, derived, near-order) x dealer/DKG/refreshed keys, n up to 6/9; refusals for too few, duplicate and caller-omitting helper lists.",
+            "note": ""},
+    "C12": {"technique": "runtime monitoring with differential oracle: re-encode equality on exhaustive single-bit/single-byte deviations; Python strict decoders supply adversarial encodings and judge a sample",
+            "text": "Exploration: 24 wire types x 6 suites. Round trips (binary, JSON) on values from real runs; primitive decoders on every bit flip, every byte substitution, length variants, boundary integers, random strings, small/mixed-order and non-canonical points generated by the reference; containers on header sweeps, every truncation, embedded invalid primitives, cross-suite encodings.",
+            "note": "Found and led to the repair of SEC1 tag 0x05 and the ignored Ed448 scalar byte (known_findings.json)."},
+    "C13": {"technique": "runtime monitoring over crash points: encode/drop/decode at every subset of round boundaries, byte-equality of all later outputs",
+            "text": "Fault enumeration over crash points: DKG, distributed refresh, dealer keygen, dealer refresh, repair, coordinator; every participant x every subset of boundaries in binary and in JSON plus random mixes.",
+            "note": "Restart modelled in-process."},
+    "C14": {"technique": "sanitizer-style runtime monitoring: catch_unwind + panic hook + rustc overflow/debug assertions + subprocess isolation with write-ahead input record",
+            "text": "Exploration: structure-aware mutation of every type's binary and JSON encodings, hostile wire-representable peer material for every protocol entry point (empty/oversized/duplicated/inconsistent/cross-group, commitment lengths wrapping u16), and mutate-decode-consume chains. A panic, abort or signal death is the refutation event.",
+            "note": "A clean run is not a proof of panic-freedom; inputs the mutators never produce are not covered."},
+    "C15": {"technique": "runtime monitoring of the random source: recording RNG, byte-stream oracle H3(bytes||share), injectivity map; Python re-derivation of a sample",
+            "text": "Exploration over RNG histories: six share kinds x five sources x commit / preprocess(k) / direct constructors / interleaved signers; bytes consumed, derivation of hiding and binding nonce, commitments, uniqueness.",
+            "note": ""},
+    "C16": {"technique": "runtime monitoring of the random source: reproducibility, cross-stream comparison, and a taint map obtained by perturbing one draw at a time",
+            "text": "Exploration: ten RNG-taking entry points x shapes; same stream => identical bytes; other stream => every random-derived observable changes; observables pairwise distinct; no dead draw; independent observables each have a private draw; randomizer seed == drawn bytes; batch verification draws once per item.",
+            "note": "Order-agnostic matching; three base streams before a dead/shared draw counts."},
+    "C17": {"technique": "runtime monitoring: re-randomized sessions with independent verification under randomized and original key, binding sweeps, per-participant tampering",
+            "text": "Exploration + fault enumeration: seeds {RNG, zero, empty, 1 KiB}, explicit randomizers {0,1,random}; regenerated parameters, hash derivation (Python re-derives), verify under randomized key only, every seed bit / commitment / signer-set change alters the randomizer, tampered participant is named exactly.",
+            "note": "Threshold and cheater clauses also run through frost-rerandomized in C03/C04."},
+    "C18": {"technique": "runtime monitoring with forced coverage: sessions repeated until all 8 parity combinations occurred; BIP-340/341 judged by libsecp256k1 and a Python reference",
+            "text": "Exploration with forced coverage: dealer and DKG keys x root {absent, empty, 32, 5, 100 bytes, untweaked}; every parity cell observed >= 2 (quick) / 16 (thorough) times; output key per BIP-341, not valid under the internal key, share verification and cheater identification identical in every cell.",
+            "note": "Taproot ciphersuite only."},
+    "C19": {"technique": "runtime monitoring with fault injection: batches with invalid items at every position, cancelling pairs/triples, three verifier streams; constant-RNG control",
+            "text": "Fault enumeration: sizes 0..16/64, mixed FROST and single-signer items, seven invalid kinds at every position, complementary pairs and triples, duplicates; verdict must equal the conjunction of individual verdicts judged three ways.",
+            "note": "The probability bound is not measured."},
 }
